@@ -20,8 +20,9 @@
    C06_layout_bytes are premise-free; their hypotheses are the property's domain (distinct keys,
    NUL-free title / keys / messages, valid UTF-16) and "the file is smaller than 4 GiB". *)
 From Coq Require Import List NArith ZArith Bool.
-From Mila Require Import Lib.Bytes Lib.Machine Model.BinArchive Model.BinStreams Model.BinFormat Model.TextMap Model.TextFormat
-  Proofs.BinSerializeConforms Proofs.ObsEqual Proofs.TextFormatRead Proofs.TextFormatWrite Proofs.TextFormatRoundTrip Proofs.TextBinBridge.
+From Mila Require Import Lib.Bytes Lib.Machine Model.BinArchive Model.BinStreams Model.BinFormat Model.TextMap Model.TextFormat Model.TextCodec
+  Proofs.BinFormatSpec Proofs.BinSerializeConforms Proofs.ObsEqual Proofs.TextFormatRead Proofs.TextFormatWrite Proofs.TextFormatRoundTrip Proofs.TextBinBridge
+  Proofs.Utf16Proofs Proofs.TextHistory.
 Import ListNotations.
 Local Open Scope N_scope.
 
@@ -87,6 +88,63 @@ Definition C06_layout_bytes_statement (m : mode) : Prop :=
         off mod 4 = 0 /\ read_labels a' off = Ok (Some [k]) /\ sliceN off (lenN (cell fmt msg)) (a_data a') = Some (cell fmt msg).
 Theorem C06_layout_bytes : forall m, C06_layout_bytes_statement m.
 Proof. exact text_layout_bytes_final. Qed.
+
+(* ---- (2b) any conforming FILE, not only this writer's image ---- *)
+(* from_bytes on a file that conforms to the bin-archive format relation of C01 (tables in any order, strings anywhere,
+   extra strings / pointers the text reader never looks at) reads the file's content; a file whose data region is the title
+   cell followed by the message cells of t, with [key] on every message offset, parses to t whatever tool wrote it *)
+Theorem C06_file_reads_content : forall fmt e f c, conforms e f c ->
+  TextFormat.from_bytes fmt e f = TextFormat.from_archive fmt (content_archive e c).
+Proof. exact text_file_reads_content. Qed.
+Theorem C06_parse_any_conforming_file : forall fmt e f c t, conforms e f c -> wf_text fmt t ->
+  c_data c = a_data (text_image fmt e t) ->
+  (forall x, am_get x (c_labels c) = am_get x (a_labels (text_image fmt e t))) ->
+  TextFormat.from_bytes fmt e f = Ok (parsed fmt t).
+Proof. exact text_parse_any_conforming_file. Qed.
+
+(* ---- (3) the link to C07: the in-memory archive after ANY history of API calls is what the round trip returns ---- *)
+(* str::encode_utf16 / the decoder of read_utf_16_impl on Unicode scalar values (Model/TextCodec.v): inverse on every Rust
+   string, and the well-formed unit sequences the theorems above quantify over are exactly the encodings of Rust strings *)
+Theorem C06_utf16_codec : forall s, Forall scalar s -> utf16_decode (utf16_encode s) = Some s /\ utf16_valid (utf16_encode s) = true.
+Proof. exact utf16_codec. Qed.
+Theorem C06_utf16_units_are_strings : forall us, Forall (fun u => u < 65536) us -> utf16_valid us = true ->
+  exists s, utf16_decode us = Some s /\ Forall scalar s /\ utf16_encode s = us.
+Proof. exact utf16_valid_is_encoding. Qed.
+Theorem C06_utf16_unpaired_rejected : forall us, utf16_valid us = false -> utf16_decode us = None.
+Proof. exact utf16_invalid_rejected. Qed.
+(* new -> any sequence of set_message (with its backslash-n unescaping) / delete_message / has_message / get_message /
+   set_title -> serialize -> from_bytes returns the title, exactly get_entries (same keys, same order, same messages) and
+   dirty = false.  Unicode format, either endianness, either arithmetic profile; keys / title NUL-free ASCII (on which
+   Shift-JIS is the identity), messages NUL-free Rust strings; tm_run is the model C07 is about. *)
+Theorem C06_history_round_trip : forall m e ops, Forall clean_op ops ->
+  file_bound (text_image Unicode e (encode_text (tm_run ops))) < 2 ^ 32 ->
+  exists f, history_file m Unicode e ops = Ok f /\
+    parse_text Unicode e f = Ok (Some {| t_title := t_title (tm_run ops); t_entries := t_entries (tm_run ops); t_dirty := false |}).
+Proof. exact history_round_trip. Qed.
+(* the legacy format: keys, title and messages NUL-free ASCII; the format stores no title, so the parsed title is empty *)
+Theorem C06_history_round_trip_legacy : forall m e ops, Forall ascii_op ops ->
+  file_bound (text_image ShiftJIS e (tm_run ops)) < 2 ^ 32 ->
+  exists f, history_file m ShiftJIS e ops = Ok f /\
+    parse_text ShiftJIS e f = Ok (Some {| t_title := []; t_entries := t_entries (tm_run ops); t_dirty := false |}).
+Proof. exact history_round_trip_legacy. Qed.
+Theorem C06_history_round_trip_lookup : forall m e ops, Forall clean_op ops ->
+  file_bound (text_image Unicode e (encode_text (tm_run ops))) < 2 ^ 32 ->
+  exists f t', history_file m Unicode e ops = Ok f /\ parse_text Unicode e f = Ok (Some t') /\
+    tm_keys t' = tm_keys (tm_run ops) /\ forall k, tm_get t' k = tm_get (tm_run ops) k.
+Proof. exact history_round_trip_lookup. Qed.
+(* the same for any in-memory archive value with distinct keys (not only reachable ones) *)
+Theorem C06_round_trip_decoded : forall m e t, NoDup (map fst (t_entries t)) -> clean_text t ->
+  file_bound (text_image Unicode e (encode_text t)) < 2 ^ 32 ->
+  exists f, TextFormat.serialize m Unicode e (encode_text t) = Ok f /\
+    parse_text Unicode e f = Ok (Some {| t_title := t_title t; t_entries := t_entries t; t_dirty := false |}).
+Proof. exact text_round_trip_decoded. Qed.
+(* a history with an astral character, an escape sequence, a delete and a re-add, a BOM-like message; big endian *)
+Example C06_history_example :
+  let ops := [TTitle [84]; TSet [107;49] [0x1F600; 92; 110; 97]; TSet [107;50] []; TDel [107;49]; TSet [107;49] [0xFEFF]] in
+  Forall clean_op ops /\ file_bound (text_image Unicode BE (encode_text (tm_run ops))) < 2 ^ 32 /\
+  exists f, history_file Checked Unicode BE ops = Ok f /\
+    parse_text Unicode BE f = Ok (Some {| t_title := [84]; t_entries := [([107;50], []); ([107;49], [0xFEFF])]; t_dirty := false |}).
+Proof. exact history_example. Qed.
 
 (* ---- non-vacuity ---- *)
 (* a Unicode archive whose first message starts with U+FEFF, contains the units 0x0001 0x0100 (bytes 01 00 00 01)
